@@ -3,7 +3,7 @@ import PyYetiVerif.Model.BulkDmigX
 import PyYetiVerif.Model.BulkMulti
 import PyYetiVerif.Model.BulkReal
 import PyYetiVerif.Model.BulkUset
-import PyYetiVerif.Model.BulkTabFixed
+import PyYetiVerif.Model.BulkTabDefault
 /-! Line protocol for C13 (text travels as lowercase hex of its ASCII bytes; a file is its
 lines joined by `0a`).
 
@@ -13,7 +13,7 @@ lines joined by `0a`).
   csuper <id> v…  | extrn id dof id dof … | spoints v… | set <id> <maxlen> v…   → hex text
   wrap <maxlen> hextoken…       → hex text                (`_wrap_text_lines(tokens, maxlen, "")`)
   tabled1 <0|1 wide> <hexname> <tid> hexfield…   → hex text   (fields t0 d0 t1 d1 …)
-  tabled1fx <hexname> <tid> bits…   → hex text of the CANDIDATE FIX of F65 (`tabled1LinesFixed`; bit patterns t0 d0 t1 d1 …)
+  tabled1d <hexname> <tid> bits…   → hex text of wttabled1 with its DEFAULT form (`tabled1LinesDefault`; bit patterns t0 d0 t1 d1 …)
   dmig <hexname> <single 0|1> <mtype> <nr> <nc> rowids(2·nr) colids(2·nc) entries(2·nr·nc, row major re im) → hex text
   rdcards <hexname> <hextext>   → cards `;`-separated, fields `,`-separated: i<n> f<m>e<e> s<hex> b
   rdspoints|rdcsupers|rdextrn|rdsets|rddmig <hextext>,  rdtabled1 <hexname> <hextext>
@@ -223,12 +223,12 @@ def answer (line : String) : String :=
             | _ => []
           fileHex (tabled1Lines (w == "1") (ofHex nm) t (prs fs))
       | none => "bad-op"
-  | "tabled1fx" :: nm :: tid :: ws => match tid.toInt?, ws.mapM String.toNat? with
+  | "tabled1d" :: nm :: tid :: ws => match tid.toInt?, ws.mapM String.toNat? with
       | some t, some bs =>
           let rec prsD : List Nat → List (PyYetiVerif.PyFloat.Dbl × PyYetiVerif.PyFloat.Dbl)
             | a :: b :: r => (dblOf a, dblOf b) :: prsD r
             | _ => []
-          fileHex (tabled1LinesFixed (ofHex nm) t (prsD bs))
+          fileHex (tabled1LinesDefault (ofHex nm) t (prsD bs))
       | _, _ => "bad-op"
   | "dmig" :: nm :: sg :: mt :: nr :: nc :: ws => match mt.toNat?, nr.toNat?, nc.toNat?, parseInts ws with
       | some mt, some nr, some nc, some xs =>
